@@ -7,31 +7,31 @@
 (* terminal states are printed with the model's expected observations.                               *)
 EXTENDS BodyFraming, Json, IOUtils
 
-Env == JsonDeserialize(IOEnv.BF_ENV)      \* [host, ua : Seq(Symbol)]
+Env == JsonDeserialize(IOEnv.BF_ENV)      \* [host, ua : Seq(Symbol), hists : Seq(history)]
 EnvHost == Env.host
 EnvUA == Env.ua
 
-CONSTANTS MCDefects,                \* the deviations enabled in this run
+CONSTANTS MCDefectSets,             \* the deviation sets explored side by side: {} = the design, {"D3"} = the code as recorded,
+                                    \* {"ZeroPosTreatedAsUnset"} = a variant TLC must refute (each only where it can matter)
           MCKinds, MCSizes,         \* body kinds, body sizes (units)
-          MCHistSizes,              \* sizes used with histories of more than one attempt
           MCMethods,                \* indices into MethodTable
-          MCMaxRe,                  \* at most this many re-sends (history length <= MCMaxRe + 1)
-          MCOutcomes,               \* the outcomes histories are built from (besides the final "ok")
+          MCHistSizes, MCHistMethods,   \* sizes / methods used with histories of two attempts
+          MCHist3Sizes,             \* sizes used with histories of three attempts
           MCBS,                     \* blocksize
           ShardK, ShardS,           \* emission sharding
           EmitOn
+\* the attempt histories come from the harness (Env.hists): every one ends in "ok"
 
-VARIABLES sc, st
-vars == <<sc, st>>
+VARIABLES sc, st, dv                \* dv: the deviation set of this behaviour (fixed by Init)
+vars == <<sc, st, dv>>
 
 MethodTable == << <<"G","E","T">>, <<"P","O","S","T">>, <<"D","E","L","E","T","E">>, <<"P","U","T">>,
                   <<"P","A","T","C","H">>, <<"H","E","A","D">>, <<"O","P","T","I","O","N","S">>, <<"g","e","t">> >>
 DataSyms == <<"a","b","c","d","e","f","g","h","i","j","k","l","m","n","o","p">>
 Data(kind, n) == [i \in 1..n |-> IF kind \in TextKinds /\ i % 2 = 1 THEN NA ELSE DataSyms[i]]
 
-RECURSIVE HistsOfLen(_)
-HistsOfLen(n) == IF n = 0 THEN {<<>>} ELSE {<<o>> \o h : o \in MCOutcomes, h \in HistsOfLen(n - 1)}
-Hists == UNION {{h \o <<"ok">> : h \in HistsOfLen(n)} : n \in 0..MCMaxRe}
+Hists == {Env.hists[i] : i \in 1..Len(Env.hists)}
+ASSUME \A h \in Hists : Len(h) \in 1..3 /\ h[Len(h)] = "ok" /\ \A i \in 1..(Len(h) - 1) : h[i] \in Outcomes \ {"ok"}
 
 Raw == [kind : MCKinds, n : MCSizes, start : {0, 1}, m : MCMethods, chunked : BOOLEAN,
         caller : {"none", "cl", "te"}, client : {"pool", "mgr"}, hist : Hists]
@@ -40,8 +40,8 @@ Admissible(r) ==
     /\ (r.start = 1 => r.kind \in FileLike)
     /\ (r.caller # "none" => r.hist = <<"ok">> /\ r.client = "pool" /\ r.start = 0)
     /\ (r.caller = "cl" => ~r.chunked)        \* a caller that asks for chunking AND supplies Content-Length contradicts itself
-    /\ (Len(r.hist) > 1 => r.n \in MCHistSizes)
-    /\ (Len(r.hist) > 2 => ~r.chunked)
+    /\ (Len(r.hist) = 2 => r.m \in MCHistMethods /\ (r.kind = "none" \/ r.n \in MCHistSizes))
+    /\ (Len(r.hist) = 3 => r.m \in MCHistMethods /\ ~r.chunked /\ (r.kind = "none" \/ r.n \in MCHist3Sizes))
 ScOf(r) == [kind |-> r.kind,
             content |-> (IF r.start = 1 THEN <<"X">> ELSE <<>>) \o Data(r.kind, r.n), start |-> r.start,
             method |-> MethodTable[r.m], chunked |-> r.chunked, caller |-> r.caller, bs |-> MCBS,
@@ -49,31 +49,38 @@ ScOf(r) == [kind |-> r.kind,
 ShardOf(r) == (r.n + r.m + Len(r.hist) + (IF r.chunked THEN 1 ELSE 0) + (IF r.client = "mgr" THEN 3 ELSE 0)
                + r.start + Cardinality({k \in MCKinds : k = r.kind /\ r.kind \in FileLike}) * 5) % ShardK
 
-Init == \E r \in Raw : /\ Admissible(r) /\ ShardOf(r) = ShardS
-                       /\ sc = ScOf(r) /\ st = InitState(sc)
+\* a deviation is explored only where its guard can fire: D3 on one-shot bodies, the zero-position variant on
+\* seekable bodies behind a PoolManager (everywhere else the run IS the design run)
+Relevant(d, r) == /\ ("D3" \in d => r.kind \in OneShot)
+                  /\ (Z0 \in d => r.client = "mgr" /\ r.kind \in HasTell /\ r.caller = "none")
+Init == \E r \in Raw, d \in MCDefectSets :
+            /\ Admissible(r) /\ Relevant(d, r) /\ ShardOf(r) = ShardS
+            /\ sc = ScOf(r) /\ st = InitState(sc) /\ dv = d
 
-D == MCDefects
-\* one named action per branch, written out so that TLC's coverage is reported per branch
-\* set_file_position: first visit of a urlopen call
-ActRecordPosition == st.pc = "enter" /\ EnterCase(D, sc, st) = "RecordPosition" /\ st' = Enter(D, sc, st) /\ UNCHANGED sc
-ActTellFails == st.pc = "enter" /\ EnterCase(D, sc, st) = "TellFails" /\ st' = Enter(D, sc, st) /\ UNCHANGED sc
-ActMarkUnreplayable == st.pc = "enter" /\ EnterCase(D, sc, st) = "MarkUnreplayable" /\ st' = Enter(D, sc, st) /\ UNCHANGED sc   \* design only
-ActNoPosition == st.pc = "enter" /\ EnterCase(D, sc, st) = "NoPosition" /\ st' = Enter(D, sc, st) /\ UNCHANGED sc
-\* rewind_body: a position is already known
-ActRewind == st.pc = "enter" /\ EnterCase(D, sc, st) = "Rewind" /\ st' = Enter(D, sc, st) /\ UNCHANGED sc
-ActRewindSeekFails == st.pc = "enter" /\ EnterCase(D, sc, st) = "RewindSeekFails" /\ st' = Enter(D, sc, st) /\ UNCHANGED sc
-ActRewindRefused == st.pc = "enter" /\ EnterCase(D, sc, st) = "RewindRefused" /\ st' = Enter(D, sc, st) /\ UNCHANGED sc
-\* never enabled: an integer position implies seek
-ActRewindNoSeek == st.pc = "enter" /\ EnterCase(D, sc, st) = "RewindNoSeek" /\ st' = Enter(D, sc, st) /\ UNCHANGED sc
-ActSend == st.pc = "send" /\ ~Breaks(sc, st) /\ st' = Send(sc, st) /\ UNCHANGED sc
-ActSendBreaks == st.pc = "send" /\ Breaks(sc, st) /\ st' = SendBreaks(sc, st) /\ UNCHANGED sc
-ActReturn == st.pc = "reply" /\ Head(st.left) = "ok" /\ st' = Reply(D, sc, st) /\ UNCHANGED sc
-ActRetry == st.pc = "reply" /\ Head(st.left) \in {"err", "errsend", "503"} /\ st' = Reply(D, sc, st) /\ UNCHANGED sc
-ActPoolRedirect == st.pc = "reply" /\ sc.client = "pool" /\ Head(st.left) \in {"307", "308"} /\ st' = Reply(D, sc, st) /\ UNCHANGED sc
-ActManagerRedirect == st.pc = "reply" /\ sc.client = "mgr" /\ Head(st.left) \in {"307", "308"} /\ st' = Reply(D, sc, st) /\ UNCHANGED sc
-ActSeeOther == st.pc = "reply" /\ Head(st.left) = "303" /\ st' = Reply(D, sc, st) /\ UNCHANGED sc
+D == dv
+\* one named action per branch of the real code (BodyFraming!ActionName says which one is enabled; every step is recorded in
+\* st.trail, which the harness reads back from the emitted terminal states: an action nobody takes is a vacuous model)
+Take(name) == st.pc # "done" /\ ActionName(D, sc, st) = name /\ st' = Step(D, sc, st) /\ UNCHANGED <<sc, dv>>
+ActManagerRecords == Take("ActManagerRecords")
+ActManagerKeeps == Take("ActManagerKeeps")
+ActRecordPosition == Take("ActRecordPosition")
+ActTellFails == Take("ActTellFails")
+ActMarkUnreplayable == Take("ActMarkUnreplayable")
+ActNoPosition == Take("ActNoPosition")
+ActRewind == Take("ActRewind")
+ActRewindSeekFails == Take("ActRewindSeekFails")
+ActRewindRefused == Take("ActRewindRefused")
+ActRewindNoSeek == Take("ActRewindNoSeek")
+ActSend == Take("ActSend")
+ActSendBreaks == Take("ActSendBreaks")
+ActReturn == Take("ActReturn")
+ActRetry == Take("ActRetry")
+ActPoolRedirect == Take("ActPoolRedirect")
+ActManagerRedirect == Take("ActManagerRedirect")
+ActSeeOther == Take("ActSeeOther")
+\* ActMarkUnreplayable: design only; ActRewindNoSeek: never enabled (an integer position implies seek)
 
-Next == \/ ActRecordPosition \/ ActTellFails \/ ActMarkUnreplayable \/ ActNoPosition
+Next == \/ ActManagerRecords \/ ActManagerKeeps \/ ActRecordPosition \/ ActTellFails \/ ActMarkUnreplayable \/ ActNoPosition
         \/ ActRewind \/ ActRewindSeekFails \/ ActRewindRefused \/ ActRewindNoSeek
         \/ ActSend \/ ActSendBreaks \/ ActReturn \/ ActRetry \/ ActPoolRedirect \/ ActManagerRedirect \/ ActSeeOther
 Spec == Init /\ [][Next]_vars /\ WF_vars(Next)
@@ -81,20 +88,25 @@ Spec == Init /\ [][Next]_vars /\ WF_vars(Next)
 -----------------------------------------------------------------------------
 (* Invariants (stage 1)                                                         *)
 
-TypeOK == /\ st.pc \in {"enter", "send", "reply", "done"}
-          /\ st.bodyPos \in {PosNone, PosFailed} \cup {PosAt(n) : n \in 0..Len(sc.content)}
+Positions == {PosNone, PosFailed} \cup {PosAt(n) : n \in 0..Len(sc.content)}
+TypeOK == /\ st.pc \in {"menter", "enter", "send", "reply", "done"}
+          /\ st.kwPos \in Positions /\ st.mgrPos \in Positions
+          /\ st.bodyPos \in Positions
           /\ st.cursor \in 0..Len(sc.content) /\ st.used \in 0..4
           /\ st.outcome \in {"running", "resp", "UnrewindableBodyError", "ValueError"}
           /\ Len(st.atts) + Len(st.left) <= Len(sc.hist) + 1
 
 V == Verdict(sc, st.atts)
 \* the property, for the design (D = {}): every clause on every attempt
-RulesHold == V.clause = "ok"
+RulesHold == dv = {} => V.clause = "ok"
 \* with the recorded deviations enabled: only BodyIdentical may fail, and only inside the recorded classes
 RulesHoldExceptKnown ==
     V.clause # "ok" => /\ V.clause = "BodyIdentical"
                        /\ \/ "D3" \in D /\ InClassD3(sc, V.at)
-                          \/ "D4" \in D /\ InClassD4(sc, V.at)
+                          \/ Z0 \in D /\ InClassZ0(sc, V.at)
+\* the position handed to a redirected request is the one recorded before the FIRST attempt (0 is a position)
+ManagerKeepsFirstPosition == D \cap {Z0} = {} =>
+    (sc.client = "mgr" /\ st.kwPos # PosNone /\ sc.kind \in {"file", "textfile", "badseek"} => st.kwPos = PosAt(sc.start))
 \* the framing decision table, clause by clause, on every attempt made so far (caller supplies no framing header)
 FramingTable ==
     sc.caller = "none" => \A j \in 1..Len(st.atts) :
@@ -125,6 +137,6 @@ Terminates == <>(st.pc = "done")
 -----------------------------------------------------------------------------
 (* Emission (stage 2): one line per terminal state                               *)
 EmitInv == (EmitOn /\ st.pc = "done") =>
-    PrintT(<<"SC", ToJson([sc |-> sc, outcome |-> st.outcome, verdict |-> V,
-                           atts |-> [j \in 1..Len(st.atts) |-> Proj(st.atts[j])]])>>)
+    PrintT(<<"SC", ToJson([sc |-> sc, dv |-> IF dv = {} THEN "design" ELSE IF dv = {"D3"} THEN "D3" ELSE IF dv = {Z0} THEN Z0 ELSE "other", outcome |-> st.outcome, verdict |-> V,
+                           trail |-> st.trail, atts |-> [j \in 1..Len(st.atts) |-> Proj(st.atts[j])]])>>)
 =============================================================================
